@@ -1,5 +1,5 @@
 From Coq Require Import List NArith ZArith Bool Lia ZifyN ZifyNat ZifyBool.
-From Verif Require Import Base.Str Base.Utf8 Syntax.Pos Syntax.Reader Proofs.ReaderProofs.
+From Verif Require Import Base.Str Base.Utf8 Syntax.Pos Syntax.Reader Proofs.ReaderProofs Proofs.Utf8ReaderProofs.
 Import ListNotations.
 Open Scope N_scope.
 Arguments N.add : simpl never. Arguments N.mul : simpl never. Arguments N.sub : simpl never.
@@ -102,6 +102,125 @@ Proof.
     exists b, t. split; [reflexivity|]. simpl in Y. congruence.
 Qed.
 
+(* ---- the non-ASCII branch: decodeRune with its refill ------------------------------ *)
+Definition adecode (rem : str) (off line col : Z) : ast :=
+  let '(rr, wd) := decode_rune rem in
+  if (rr =? RuneError) && Nat.eqb wd 1 then mkast [] 0 line col runeEOF 1%Z (Some (off, line, col))
+  else mkast (skipn wd rem) (off + Z.of_nat wd) line col rr (Z.of_nat wd) None.
+
+Lemma decode_loop_eq : forall fuel bufsz s, decode_loop fuel bufsz s =
+  let rest := skipn (bsp s) (bs s) in
+  let '(rr, wd) := decode_rune rest in
+  let s := set_rw s rr (w s) in
+  let again :=
+    if (rr =? RuneError) && negb (full_rune rest) then
+      let '(s1, n) := fill bufsz s in (s1, negb (Nat.eqb n 0))
+    else (s, false) in
+  let '(s1, retry) := again in
+  if retry then
+    match fuel with
+    | O => set_bad s1 OutOfFuel
+    | S f => decode_loop f bufsz s1
+    end
+  else
+    let s2 := set_rw (set_bsp s1 (bsp s1 + wd)) (r s1) (Z.of_nat wd) in
+    if (rr =? RuneError) && Nat.eqb wd 1 then err_pass s2 (raw_pos s2) else s2.
+Proof. destruct fuel; reflexivity. Qed.
+
+(* the end of the branch: consume wd bytes, report invalid UTF-8 *)
+Lemma decode_finish : forall bufsz s1 rr wd, Inv bufsz s1 -> r s1 = rr -> rr <> runeEOF -> perr s1 = None ->
+  (1 <= wd)%nat -> (bsp s1 + wd <= length (bs s1))%nat ->
+  let s2 := set_rw (set_bsp s1 (bsp s1 + wd)) (r s1) (Z.of_nat wd) in
+  let s' := if (rr =? RuneError) && Nat.eqb wd 1 then err_pass s2 (raw_pos s2) else s2 in
+  Inv bufsz s' /\
+  abs s' = if (rr =? RuneError) && Nat.eqb wd 1
+           then mkast [] 0 (line s1) (col s1) runeEOF 1%Z (Some ((offs s1 + Z.of_nat (bsp s1))%Z, line s1, col s1))
+           else mkast (skipn wd (rem s1)) (offs s1 + Z.of_nat (bsp s1) + Z.of_nat wd) (line s1) (col s1) rr (Z.of_nat wd) None.
+Proof.
+  intros bufsz s1 rr wd HI Hr Hne Hp Hw Hk. cbv zeta.
+  assert (Hr1 : r s1 <> runeEOF) by congruence.
+  destruct (adv_facts bufsz s1 wd HI Hr1 Hk) as [Q1 Q2].
+  destruct ((rr =? RuneError) && Nat.eqb wd 1) eqn:E.
+  - apply andb_true_iff in E. destruct E as [_ E]. apply Nat.eqb_eq in E. subst wd.
+    unfold err_pass. cbn [perr set_rw set_bsp]. rewrite Hp. split.
+    + destruct HI as (I0 & I1 & I2 & I3 & I4).
+      repeat split; cbn [bs bsp bad r readErr readEOF rd set_rw set_bsp set_perr]; auto. intro X; exfalso; apply X; reflexivity.
+    + unfold abs, raw_pos. cbn [perr r w offs bsp line col bs set_rw set_bsp set_perr].
+      replace (offs s1 + Z.of_nat (bsp s1 + 1) - Z.of_nat 1)%Z with (offs s1 + Z.of_nat (bsp s1))%Z by lia. reflexivity.
+  - split.
+    + apply Inv_set_rw_ne; assumption.
+    + unfold abs. cbn [perr r w offs bsp line col bs set_rw set_bsp]. rewrite Hp, Hr.
+      replace (rr =? runeEOF) with false by lia. f_equal; [exact Q2 | lia].
+Qed.
+
+Lemma decode_loop_spec : forall fuel bufsz s, (4 <= bufsz)%nat -> Inv bufsz s -> r s <> runeEOF -> perr s = None ->
+  (bsp s < length (bs s))%nat -> (5 <= left s + fuel)%nat ->
+  Inv bufsz (decode_loop fuel bufsz s) /\
+  abs (decode_loop fuel bufsz s) = adecode (rem s) (offs s + Z.of_nat (bsp s)) (line s) (col s).
+Proof.
+  induction fuel as [|f IH]; intros bufsz s Hb HI Hr Hp Hlt Hf.
+  - (* fuel 0: at least 5 bytes are buffered, so the prefix is a full rune *)
+    rewrite decode_loop_eq. cbv zeta.
+    set (rest := skipn (bsp s) (bs s)).
+    assert (Hlen : length rest = left s) by (unfold rest, left; rewrite skipn_length; reflexivity).
+    assert (Hne : rest <> []) by (intro X; rewrite X in Hlen; simpl in Hlen; unfold left in *; lia).
+    assert (Hfull : full_rune rest = true) by (apply full_rune_len4; lia).
+    destruct (decode_rune rest) as [rr wd] eqn:Ed. rewrite Hfull, andb_false_r.
+    pose proof (decode_width rest Hne) as Hw. rewrite Ed in Hw. cbn [snd] in Hw.
+    pose proof (decode_not_eof rest) as Hn. rewrite Ed in Hn. cbn [fst] in Hn.
+    assert (Hpre : decode_rune (rem s) = (rr, wd)).
+    { unfold rem. fold rest. rewrite decode_prefix; auto. }
+    assert (HI0 : Inv bufsz (set_rw s rr (w s))) by (apply Inv_set_rw_ne; assumption).
+    destruct (decode_finish bufsz (set_rw s rr (w s)) rr wd HI0 eq_refl Hn Hp ltac:(lia) ltac:(cbn; unfold left in *; lia)) as [F1 F2].
+    cbv zeta in F1, F2. split; [exact F1|]. rewrite F2. unfold adecode. rewrite Hpre.
+    destruct ((rr =? RuneError) && Nat.eqb wd 1); reflexivity.
+  - rewrite decode_loop_eq. cbv zeta.
+    set (rest := skipn (bsp s) (bs s)).
+    assert (Hlen : length rest = left s) by (unfold rest, left; rewrite skipn_length; reflexivity).
+    assert (Hne : rest <> []) by (intro X; rewrite X in Hlen; simpl in Hlen; unfold left in *; lia).
+    destruct (decode_rune rest) as [rr wd] eqn:Ed.
+    pose proof (decode_width rest Hne) as Hw. rewrite Ed in Hw. cbn [snd] in Hw.
+    pose proof (decode_not_eof rest) as Hn. rewrite Ed in Hn. cbn [fst] in Hn.
+    set (s0 := set_rw s rr (w s)).
+    assert (HI0 : Inv bufsz s0) by (apply Inv_set_rw_ne; assumption).
+    assert (Hr0 : r s0 <> runeEOF) by exact Hn.
+    destruct ((rr =? RuneError) && negb (full_rune rest)) eqn:Ec.
+    + (* need more bytes *)
+      apply andb_true_iff in Ec. destruct Ec as [Ee Enf]. apply negb_true_iff in Enf.
+      assert (Hl3 : (left s < 4)%nat).
+      { destruct (Nat.ltb (left s) 4) eqn:X; [apply Nat.ltb_lt in X; exact X|]. apply Nat.ltb_ge in X.
+        rewrite full_rune_len4 in Enf by lia. discriminate. }
+      destruct (fill bufsz s0) as [s1 n] eqn:Ef.
+      assert (Hl0 : (left s0 < bufsz)%nat) by (change (left s0) with (left s); lia).
+      destruct (fill_spec _ _ _ _ HI0 Hr0 Hl0 Ef) as (J1 & (B1 & B2 & B3 & B4 & B5 & B6 & B7) & J3 & J4 & J5).
+      destruct (Nat.eqb n 0) eqn:En; cbn [negb].
+      * (* EOF inside the rune: decode what is there *)
+        apply Nat.eqb_eq in En. destruct (J3 En) as [K1 K2].
+        assert (Hrem : rem s = rest) by (unfold rem; change (rd s) with (rd s0); rewrite K2, app_nil_r; reflexivity).
+        assert (Hrem1 : skipn (bsp s1) (bs s1) = rest).
+        { change (rem s0) with (rem s) in B1. rewrite Hrem in B1. unfold rem in B1. rewrite K1, app_nil_r in B1. exact B1. }
+        assert (Hk : (bsp s1 + wd <= length (bs s1))%nat).
+        { apply (f_equal (@length _)) in Hrem1. rewrite skipn_length in Hrem1. lia. }
+        destruct (decode_finish bufsz s1 rr wd J1 B5 Hn ltac:(rewrite B7; exact Hp) ltac:(lia) Hk) as [F1 F2].
+        cbv zeta in F1, F2. split; [exact F1|]. rewrite F2. unfold adecode. rewrite Hrem, Ed.
+        change (rem s0) with (rem s) in B1. rewrite B1, Hrem, B3, B4, B2.
+        destruct ((rr =? RuneError) && Nat.eqb wd 1); reflexivity.
+      * apply Nat.eqb_neq in En. destruct (J4 En) as [K1 K2].
+        assert (Hr1 : r s1 <> runeEOF) by (rewrite B5; exact Hn).
+        destruct (IH bufsz s1 Hb J1 Hr1 ltac:(rewrite B7; exact Hp) ltac:(unfold left in K1; lia)
+                     ltac:(change (left s0) with (left s) in K1; lia)) as [M1 M2].
+        split; [exact M1|]. rewrite M2. change (rem s0) with (rem s) in B1. rewrite B1, B2, B3, B4. reflexivity.
+    + (* the buffered bytes decide *)
+      assert (Hpre : decode_rune (rem s) = (rr, wd)).
+      { unfold rem. fold rest. rewrite decode_prefix; auto.
+        apply andb_false_iff in Ec. destruct Ec as [X | X].
+        - left. rewrite Ed. cbn [fst]. lia.
+        - right. apply negb_false_iff in X. exact X. }
+      destruct (decode_finish bufsz s0 rr wd HI0 eq_refl Hn Hp ltac:(lia) ltac:(cbn; unfold left in *; lia)) as [F1 F2].
+      cbv zeta in F1, F2. split; [exact F1|]. rewrite F2. unfold adecode. rewrite Hpre.
+      destruct ((rr =? RuneError) && Nat.eqb wd 1); reflexivity.
+Qed.
+
 Lemma ascii_tl : forall b t, ascii (b :: t) -> b < 128 /\ ascii t.
 Proof. intros b t H. inversion H; subst. split; assumption. Qed.
 
@@ -114,13 +233,13 @@ Ltac fin Hp :=
   f_equal; try congruence; try lia.
 
 Lemma rune_loop_spec : forall fuel bufsz obq obqd bq s A, (4 <= bufsz)%nat ->
-  Inv bufsz s -> r s <> runeEOF -> perr s = None -> ascii (rem s) ->
+  Inv bufsz s -> r s <> runeEOF -> perr s = None ->
   (length (rem s) < fuel)%nat ->
   a_line A = line s -> a_r A = r s -> a_err A = None ->
   Inv bufsz (rune_loop fuel bufsz obq obqd bq s) /\
   abs (rune_loop fuel bufsz obq obqd bq s) = aloop obq obqd bq (rem s) (offs s + Z.of_nat (bsp s)) (col s) A.
 Proof.
-  induction fuel as [|f IH]; intros bufsz obq obqd bq s A Hb HI Hr Hp Ha Hf AL AR AE; [lia|].
+  induction fuel as [|f IH]; intros bufsz obq obqd bq s A Hb HI Hr Hp Hf AL AR AE; [lia|].
   cbn [rune_loop].
   destruct (if Nat.leb (length (bs s)) (bsp s) then let '(s1, n) := fill bufsz s in (s1, Nat.eqb n 0) else (s, false))
     as [s1 at_eof] eqn:Eh.
@@ -132,8 +251,15 @@ Proof.
     unfold abs, aret; cbn [perr r w offs bsp line col set_col set_rw set_bsp set_line bs]. rewrite Hp1.
     cbn. f_equal; try congruence. lia.
   - destruct (J4 eq_refl) as (b & t & K1 & K2). rewrite K2. rewrite K1 in *.
-    destruct (ascii_tl _ _ Ha) as [Hb128 Hat]. cbn [aloop].
-    replace (b <? 128) with true by lia.
+    cbn [aloop].
+    destruct (b <? 128) eqn:Eb128.
+    2:{ (* non-ASCII: decodeRune *)
+      assert (Hlt1 : (bsp s1 < length (bs s1))%nat).
+      { assert (X : nth_error (bs s1) (bsp s1) <> None) by congruence. apply nth_error_Some in X. exact X. }
+      destruct (decode_loop_spec 4 bufsz s1 Hb J1 Hr1 Hp1 Hlt1 ltac:(unfold left; lia)) as [M1 M2].
+      split; [exact M1|]. rewrite M2. unfold adecode. rewrite B1, B2, B3, B4, AE.
+      destruct (decode_rune (b :: t)) as [rr wd].
+      destruct ((rr =? RuneError) && Nat.eqb wd 1); unfold aret; rewrite ?AL, ?AE; reflexivity. }
     assert (Hk : (bsp s1 + 1 <= length (bs s1))%nat).
     { assert (nth_error (bs s1) (bsp s1) <> None) by congruence. apply nth_error_Some in H. lia. }
     destruct (adv_facts bufsz s1 1 J1 Hr1 Hk) as [L1 L2]. rewrite <- S_add1 in L1, L2.
@@ -251,7 +377,6 @@ Proof.
     assert (X6 : (offs s5 + Z.of_nat (bsp s5) = offs s + Z.of_nat (bsp s) + 1)%Z) by lia.
     destruct again.
     + destruct (IH bufsz obq obqd (S bq) s5 A Hb T0 X1 X2) as [M1 M2]; try assumption.
-      * rewrite X3. exact Hat.
       * rewrite X3. simpl in Hf. lia.
       * split; [exact M1|]. rewrite M2. rewrite X3. f_equal; lia.
     + split; [apply Inv_set_rw_ne; [exact T0 | exact X1]|]. assert (b = 92) by lia. subst b.
@@ -260,17 +385,25 @@ Proof.
       f_equal; try assumption; try lia; try (symmetry; assumption).
 Qed.
 
-Lemma aloop_ascii : forall obq obqd rem bq off c A, ascii rem ->
-  ascii (a_rem (aloop obq obqd bq rem off c A)) /\ a_err (aloop obq obqd bq rem off c A) = a_err A.
+(* the parser stops at the first error: an error is always accompanied by r = runeEOF *)
+Lemma aloop_err : forall obq obqd rem bq off c A, a_err A = None ->
+  a_err (aloop obq obqd bq rem off c A) = None \/ a_r (aloop obq obqd bq rem off c A) = runeEOF.
 Proof.
-  induction rem as [|b t IH]; intros bq off c A Ha.
-  - cbn. split; [constructor | reflexivity].
-  - destruct (ascii_tl _ _ Ha) as [Hb Ht]. cbn [aloop]. replace (b <? 128) with true by lia.
-    assert (Htl : ascii (tl t)) by (destruct t; [constructor | apply (ascii_tl _ _ Ht)]).
-    assert (Htl2 : ascii (tl (tl t))) by (destruct t as [|x [|y t']]; try constructor; apply (ascii_tl _ _ Htl)).
-    repeat match goal with
-    | |- context[if ?c then _ else _] => destruct c
-    end; try apply IH; try assumption; cbn; split; auto.
+  induction rem as [|b t IH]; intros bq off c A He.
+  - cbn. left. exact He.
+  - cbn [aloop]. destruct (b <? 128).
+    + repeat match goal with
+      | |- context[if ?c then _ else _] => destruct c
+      end; try (apply IH; exact He); cbn; left; exact He.
+    + destruct (decode_rune (b :: t)) as [rr wd]. rewrite He.
+      destruct ((rr =? RuneError) && Nat.eqb wd 1); cbn; [right; reflexivity | left; exact He].
+Qed.
+
+Lemma arune_err : forall obq obqd a, a_err a = None ->
+  a_err (arune obq obqd a) = None \/ a_r (arune obq obqd a) = runeEOF.
+Proof.
+  intros obq obqd a He. unfold arune. destruct (a_r a =? runeEOF); [left; exact He|].
+  destruct ((a_r a =? 10) || (a_r a =? escNewl)); apply aloop_err; reflexivity || exact He.
 Qed.
 
 Lemma observe_abs : forall s, observe s = aobserve (abs s).
@@ -279,13 +412,16 @@ Proof. intro s. unfold observe, aobserve, abs, raw_pos. destruct (perr s); refle
 Lemma r_abs : forall s, a_r (abs s) = r s.
 Proof. intro s. unfold abs. destruct (perr s); reflexivity. Qed.
 
+Lemma err_abs : forall s, a_err (abs s) = perr s.
+Proof. intro s. unfold abs. destruct (perr s); reflexivity. Qed.
+
+(* one rune() call of the buffered reader = one step of the Spec reader, for every byte input *)
 Lemma rune_spec : forall bufsz obq obqd s, (4 <= bufsz)%nat -> Inv bufsz s -> perr s = None ->
-  (r s <> runeEOF -> ascii (rem s)) ->
   Inv bufsz (rune bufsz obq obqd s) /\ abs (rune bufsz obq obqd s) = arune obq obqd (abs s).
 Proof.
-  intros bufsz obq obqd s Hb HI Hp Ha. unfold rune, arune. rewrite r_abs.
+  intros bufsz obq obqd s Hb HI Hp. unfold rune, arune. rewrite r_abs.
   destruct (r s =? runeEOF) eqn:Er; [split; [assumption | reflexivity]|].
-  assert (Hr : r s <> runeEOF) by lia. specialize (Ha Hr).
+  assert (Hr : r s <> runeEOF) by lia.
   assert (Eabs : abs s = mkast (rem s) (offs s + Z.of_nat (bsp s)) (line s) (col s) (r s) (w s) None).
   { unfold abs. rewrite Hp. replace (r s =? runeEOF) with false by lia. reflexivity. }
   rewrite Eabs. cbn [a_r a_line a_col a_w a_rem a_off a_err].
@@ -293,59 +429,43 @@ Proof.
   - set (s0 := set_col (set_line s (line s + 1)) 1).
     assert (I0 : Inv bufsz s0) by exact HI.
     destruct (rune_loop_spec (length (rd_src (rd s0)) + length (bs s0) + 2) bufsz obq obqd 0 s0
-                (mkast (rem s) (offs s + Z.of_nat (bsp s)) (line s + 1) 1 (r s) (w s) None) Hb I0 Hr Hp Ha) as [M1 M2];
+                (mkast (rem s) (offs s + Z.of_nat (bsp s)) (line s + 1) 1 (r s) (w s) None) Hb I0 Hr Hp) as [M1 M2];
       try reflexivity.
     { unfold rem. rewrite app_length, skipn_length. cbn. lia. }
     split; [exact M1 | exact M2].
   - set (s0 := set_col s (col s + w s)).
     assert (I0 : Inv bufsz s0) by exact HI.
     destruct (rune_loop_spec (length (rd_src (rd s0)) + length (bs s0) + 2) bufsz obq obqd 0 s0
-                (mkast (rem s) (offs s + Z.of_nat (bsp s)) (line s) (col s + w s) (r s) (w s) None) Hb I0 Hr Hp Ha) as [M1 M2];
+                (mkast (rem s) (offs s + Z.of_nat (bsp s)) (line s) (col s + w s) (r s) (w s) None) Hb I0 Hr Hp) as [M1 M2];
       try reflexivity.
     { unfold rem. rewrite app_length, skipn_length. cbn. lia. }
     split; [exact M1 | exact M2].
 Qed.
 
-Lemma arune_ascii : forall obq obqd a, a_err a = None -> ascii (a_rem a) ->
-  ascii (a_rem (arune obq obqd a)) /\ a_err (arune obq obqd a) = None.
-Proof.
-  intros obq obqd a He Ha. unfold arune. destruct (a_r a =? runeEOF); [split; assumption|].
-  destruct ((a_r a =? 10) || (a_r a =? escNewl));
-    match goal with |- context[aloop ?o ?od ?bq ?rm ?off ?c ?A] =>
-      destruct (aloop_ascii o od rm bq off c A Ha) as [X Y]; split; [exact X | rewrite Y; exact He] end.
-Qed.
-
 Lemma rune_stream_spec : forall fuel bufsz obq obqd s, (4 <= bufsz)%nat -> Inv bufsz s -> perr s = None ->
-  (r s <> runeEOF -> ascii (rem s)) ->
   rune_stream fuel bufsz obq obqd s = arune_stream fuel obq obqd (abs s).
 Proof.
-  induction fuel as [|f IH]; intros bufsz obq obqd s Hb HI Hp Ha; [reflexivity|].
+  induction fuel as [|f IH]; intros bufsz obq obqd s Hb HI Hp; [reflexivity|].
   cbn [rune_stream arune_stream].
-  destruct (rune_spec bufsz obq obqd s Hb HI Hp Ha) as [M1 M2].
+  destruct (rune_spec bufsz obq obqd s Hb HI Hp) as [M1 M2].
   rewrite <- M2, r_abs, <- observe_abs.
-  assert (Hasc : ascii (a_rem (abs s))).
-  { unfold abs. rewrite Hp. cbn. destruct (r s =? runeEOF) eqn:E; [constructor | apply Ha; lia]. }
-  assert (He : a_err (abs s) = None) by (unfold abs; rewrite Hp; reflexivity).
-  destruct (arune_ascii obq obqd (abs s) He Hasc) as [N1 N2]. rewrite <- M2 in N1, N2.
-  assert (Hp' : perr (rune bufsz obq obqd s) = None).
-  { unfold abs in N2. destruct (perr (rune bufsz obq obqd s)); [discriminate | reflexivity]. }
   destruct (r (rune bufsz obq obqd s) =? runeEOF) eqn:E; [reflexivity|].
   f_equal. apply IH; try assumption.
-  intros _. unfold abs in N1. rewrite Hp', E in N1. exact N1.
+  destruct (arune_err obq obqd (abs s)) as [N | N].
+  - rewrite err_abs. exact Hp.
+  - rewrite <- M2, err_abs in N. exact N.
+  - rewrite <- M2, r_abs in N. rewrite N in E. discriminate.
 Qed.
 
-(* C07_rune_stream (inputs of bytes < 128): every schedule gives the stream of the unbuffered Spec reader *)
-Theorem rune_stream_ascii : forall bufsz obq obqd input sched eager, (4 <= bufsz)%nat -> ascii input ->
+(* C07_rune_stream: for EVERY input, schedule, EOF style and buffer size >= 4 the buffered reader
+   produces the rune stream of the Spec reader *)
+Theorem rune_stream_all : forall bufsz obq obqd input sched eager, (4 <= bufsz)%nat ->
   trace bufsz obq obqd input sched eager = atrace obq obqd input.
 Proof.
-  intros bufsz obq obqd input sched eager Hb Ha. unfold trace, atrace.
-  rewrite rune_stream_spec; try assumption.
-  - reflexivity.
-  - apply Inv_init.
-  - reflexivity.
-  - intros _. exact Ha.
+  intros bufsz obq obqd input sched eager Hb. unfold trace, atrace.
+  rewrite rune_stream_spec; try assumption; try reflexivity. apply Inv_init.
 Qed.
 
-Corollary rune_stream_schedule_free : forall bufsz obq obqd input sched eager, (4 <= bufsz)%nat -> ascii input ->
-  trace bufsz obq obqd input sched eager = trace bufsz obq obqd input [] false.
-Proof. intros. rewrite !rune_stream_ascii by assumption. reflexivity. Qed.
+Corollary rune_stream_schedule_free : forall bufsz obq obqd input sched eager sched' eager', (4 <= bufsz)%nat ->
+  trace bufsz obq obqd input sched eager = trace bufsz obq obqd input sched' eager'.
+Proof. intros. rewrite !rune_stream_all by assumption. reflexivity. Qed.
